@@ -215,7 +215,17 @@ fn handle_put<R: Read, W: Write>(
                 // Never overwrite on a stale CAS — land a conflict-copy.
                 let mut cn = dst.as_os_str().to_owned();
                 cn.push(format!(".conflict-{}", super::wire::short_hash(&hash)));
-                match std::fs::rename(&tmp, PathBuf::from(cn)) {
+                // That name is a path like any other: a client may have committed
+                // something else there. Preserving this write must not replace it.
+                let mut copy = PathBuf::from(&cn);
+                let mut k = 0u32;
+                while current_hash(&copy).is_some_and(|h| h != hash) {
+                    k += 1;
+                    let mut alt = cn.clone();
+                    alt.push(format!("-{k}"));
+                    copy = PathBuf::from(alt);
+                }
+                match std::fs::rename(&tmp, copy) {
                     Ok(()) => Response::PutResult {
                         committed: false,
                         current,
